@@ -72,6 +72,8 @@ def unit(args: dict) -> dict:
                            "edges": 0, "replayed": 0, "divergent_edges": 0, "trace_steps": 0,
                            "trace_divergent": 0, "violations": [], "errors": [], "exhaustive": True,
                            "nontrivial": 0, "samples": [], "walk_traces": 0}
+    from . import rt as _rt
+    _rt.OBSERVER_FAULTS["on"] = bool(args.get("observer_faults", False))
     try:
         built = pipeline.build_all(specs)
         edges: List[Edge] = []
@@ -81,7 +83,9 @@ def unit(args: dict) -> dict:
                                               workers=args.get("tlc_workers", 2), timeout=args.get("timeout", 1700),
                                               props=props, max_states=args.get("max_states", 10 ** 8),
                                               with_batch=args.get("with_batch", False),
-                                              with_burst=args.get("with_burst", False))
+                                              with_burst=args.get("with_burst", False),
+                                              with_faults=args.get("with_faults", False),
+                                              fault_pairs=args.get("fault_pairs", False))
             if res.distinct_states >= args.get("max_states", 10 ** 8):
                 out["exhaustive"] = False
             out["states"] = res.distinct_states
@@ -105,8 +109,26 @@ def unit(args: dict) -> dict:
                         out["violations"].append(_viol(p, e.prop[p], engine, b, steps, e.out, "edge", post, pre))
             else:
                 out["divergent_edges"] += 1
-                traces.append({"mi": e.mi, "eng": engine, "tag": f"edge:{what}",
-                               "steps": [{"pre": obs_state(pre), "step": e.step, "post": obs_state(post), "out": log}]})
+                tstep = {"pre": obs_state(pre), "step": e.step, "post": obs_state(post), "out": log}
+                if args.get("observer_faults"):
+                    # (b): the same run with well-behaved observers must be identical
+                    _rt.OBSERVER_FAULTS["on"] = False
+                    try:
+                        rc = run(b, steps)
+                    finally:
+                        _rt.OBSERVER_FAULTS["on"] = True
+                    if rc[-1][0] != post or rc[-1][1] != log:
+                        for p in props:
+                            out["violations"].append(_viol(p, ["observer_fault_changed_behaviour"], engine, b, steps, log,
+                                                           "observer-faults", post, pre))
+                if e.step.get("faults"):
+                    # the fault-free twin of the same step, observed on the real engine
+                    twin = dict(e.step)
+                    twin.pop("faults", None)
+                    rc = run(b, steps[:-1] + [twin])
+                    tstep["clean"] = {"post": obs_state(rc[-1][0]), "out": rc[-1][1]}
+                    tstep["step"] = dict(e.step, faults=sorted(e.step["faults"]))
+                traces.append({"mi": e.mi, "eng": engine, "tag": f"edge:{what}", "steps": [tstep]})
                 trace_ctx.append((b, steps[:-1]))
 
         # Edges that leave the abstract state unchanged (unhandled events, can(), refused sends) are
